@@ -114,6 +114,7 @@ impl Property for C02 {
             allow_loops: rng.chance(1, 2),
             outside: rng.chance(1, 3),
             fifo: rng.chance(1, 10),
+            raw_byte: None,
         };
         let mut spec = gen_tree(rng, &cfg);
         // links at the top level that can serve as starting points
